@@ -1,7 +1,7 @@
-"""C19 - see properties.jsonl; DESIGN.md section 5."""
+"""C15 - see properties.jsonl; DESIGN.md section 5."""
 from ._generic import run_property
 
-EXPLANATION = 'Bounded stand-in: k-th-call fault injection through contract-carrying open_with/mkdirs and the prefix-closed I/O trace invariant (no existing path opened for writing before the summary files).'
+EXPLANATION = 'Bounded stand-in, exhaustive within the stated bound: the compiled _assemble_objects driven page by page against spec.assembly.record_assemble, and whole nested files from the independent encoder through to_pandas.'
 
 
 def p_parts():
@@ -9,7 +9,7 @@ def p_parts():
 
 
 def run(ctx):
-    return run_property(ctx, 'fault_enumeration', EXPLANATION, p_parts=p_parts(), b_modules=['c19_fault_injection'],
+    return run_property(ctx, 'exploration', EXPLANATION, p_parts=p_parts(), b_modules=['c15_assembly'],
                         assumptions=["pandas / numpy / cramjam behaviour inside every opaque value",
                                      "the oracle (plain pandas / the spec library under /verif/spec) is a faithful reading of the property"],
                         trusted=["bounded layer: enumerated inputs only; nothing outside the stated bound is covered"])
